@@ -301,18 +301,20 @@ def _event_at(path, st):
 
 
 def _exception_verdict(rep, prop, cfg, info):
-    """An exception raised by nautilus inside a legal history."""
+    """An exception raised by nautilus inside a legal history.  None of the sampler properties says "never
+    raises", so an exception is a verdict only where the property's own mechanism is the raising site: C03 names
+    evaluate_likelihood / add_samples / posterior for every batch size and blob kind.  Everything else is a NOTE
+    (the steps logged before the exception are validated as usual)."""
     err = info['error']
+    tb = info.get('traceback') or ''
     c = history.full(cfg)
-    if prop == 'C03' and c['blob'] != 'none':
+    frames = [ln for ln in tb.splitlines() if 'nautilus/sampler.py' in ln]
+    inner = frames[-1] if frames else ''
+    if prop == 'C03' and c['blob'] != 'none' and any(f in inner for f in ('in evaluate_likelihood', 'in add_samples',
+                                                                         'in posterior', 'in add_bound')):
         rep.violation('raise:n_batch=%s,blob=%s:%s' % (c['n_batch'], c['blob'], err.split(':')[0]),
                       'legal configuration raises %s [config %s]' % (err, json.dumps(cfg, sort_keys=True)),
-                      dict(cfg=cfg, error=err, traceback=info.get('traceback')))
-        return True
-    if prop in ('C10', 'C12', 'C01', 'C02') and c['blob'] == 'none':
-        rep.violation('raise:%s:%s' % (_cfg_key(cfg), err.split(':')[0]),
-                      'legal history raises %s [config %s]' % (err, json.dumps(cfg, sort_keys=True)),
-                      dict(cfg=cfg, error=err, traceback=info.get('traceback')))
+                      dict(cfg=cfg, error=err, traceback=tb))
         return True
     return False
 
